@@ -29,7 +29,12 @@ def parseElem (t : String) (s : String) : Option Elem :=
 def parseList (t : String) (s : String) : Option (List Elem) :=
   if s == "-" then some [] else (s.splitOn "+").mapM (parseElem t)
 
-def parseOp (sh : List String) (s : String) : Option Op :=
+def parseWhen (s : String) : Option When :=
+  if s == "a" then some .after
+  else if s.startsWith "b" then (s.drop 1).toString.toNat?.map .breakAt
+  else s.toNat?.map .at
+
+def parseOpBase (sh : List String) (s : String) : Option Op :=
   match sh with
   | [kind, et] =>
     if kind != "arr" && kind != "fix" then none else
@@ -73,6 +78,17 @@ def parseOp (sh : List String) (s : String) : Option Op :=
     | ["ln"] => some .length
     | _ => none
   | _ => none
+
+/-- `im,<outer>,<nest>,<when>,<mutation op …>`: outer f|m|k, nest 0-3, when j | a | b<j> -/
+def parseOp (sh : List String) (s : String) : Option Op :=
+  match s.splitOn "," with
+  | "im" :: o :: n :: w :: rest => do
+    let outer ← (if o == "f" then some 0 else if o == "m" || o == "k" then some 1 else none)
+    let nest ← n.toNat?
+    let w ← parseWhen w
+    let m ← parseOpBase sh (",".intercalate rest)
+    if isMutation m && nest ≤ 3 then some (.iter outer nest w m) else none
+  | _ => parseOpBase sh s
 
 /-- a transaction: mode letter and operations -/
 def parseTx (sh : List String) (s : String) : Option (String × List Op) :=
@@ -118,6 +134,7 @@ def showObs : Obs → String
   | .optNat none => "nil"
   | .optNat (some n) => toString n
   | .bag xs => "[" ++ ", ".intercalate (sortStrs (xs.map showElem)) ++ "]"
+  | .steps n len => q s!"{n}/{len}"
 
 def showCont : Cont → String
   | .arr xs => showList xs
@@ -126,7 +143,8 @@ def showCont : Cont → String
 def showTx (o : TxObs Cont Obs Err) : String :=
   match o.outcome with
   | none => "ok[" ++ ";".intercalate (o.logs.map showObs ++ [showCont o.final]) ++ "]"
-  | some _ => "err:index[" ++ ";".intercalate (o.logs.map showObs) ++ "]"
+  | some .index => "err:index[" ++ ";".intercalate (o.logs.map showObs) ++ "]"
+  | some .mutation => "err:mutation[" ++ ";".intercalate (o.logs.map showObs) ++ "]"
 
 def opKind : Op → String
   | .append _ => "append" | .appendAll _ => "appendAll" | .insert .. => "insert" | .remove _ => "remove"
@@ -138,6 +156,9 @@ def opKind : Op → String
   | .dInsert .. => "dict-insert" | .dRemove _ => "dict-remove" | .dRead _ => "dict-read" | .dWrite _ (some _) => "dict-write"
   | .dWrite _ none => "dict-write-nil" | .dKeys => "keys" | .dValues => "values" | .dHas _ => "containsKey"
   | .dForEach => "forEachKey" | .dForEachStop _ => "forEachKey-stop" | .dIterate => "dict-iterate"
+  | .iter outer nest w _ =>
+    "iter-" ++ (if outer == 0 then "for" else "fn") ++ s!"-nest{nest}-" ++
+      (match w with | .at _ => "mutate-inside" | .after => "mutate-after" | .breakAt _ => "mutate-after-break")
 
 def dedup (xs : List String) : List String := xs.foldl (fun acc x => if acc.contains x then acc else acc ++ [x]) []
 
@@ -185,7 +206,7 @@ def judge (op : List String) (go : String) : Verdict :=
       let model := "|".intercalate rendered
       let maxSize := obs.foldl (fun m o => max m (size o.final)) 0
       let tags := dedup (shape :: sizeTag maxSize :: (txs.map fun t => "mode-" ++ t.1)
-        ++ (obs.map fun o => match o.outcome with | none => "commit" | some _ => "abort-index")
+        ++ (obs.map fun o => match o.outcome with | none => "commit" | some .index => "abort-index" | some .mutation => "abort-mutation")
         ++ (hist.zip obs).flatMap fun (tx, o) => (tx.take (o.logs.length + 1)).map opKind)
       if go == model then .ok ("!nt" :: tags)
       else
